@@ -142,7 +142,3 @@ func cmdVC(args []string) {
 	fmt.Printf("TOTAL %d/%d discharged\n", ok, tot)
 }
 
-func cmdCheck(args []string) {
-	fmt.Println("not yet")
-	os.Exit(2)
-}
